@@ -100,10 +100,40 @@ def dag_grammars(rnd, n):
     return out
 
 
+def sink_cycles(rnd, n):
+    """a cycle among definitions that also refers to definitions outside it, and no definition that nothing refers to (so every
+    definition is depended on): the walk that looks for a sample cycle may start at a definition that leads to none; which one it
+    starts at depends on the names, so they are drawn per grammar"""
+    out = []
+    for k in range(n):
+        names = []
+        while len(names) < 5:
+            nm = rnd.choice("ABCDEFGHJKLMNOPQRSTVWYZ") + "".join(rnd.choice("abcdefghijklmnopqrstuvwxyz0123456789") for _ in range(rnd.randint(1, 6)))
+            if nm not in names:
+                names.append(nm)
+        a, b, s1, s2, s3 = names
+        shape = k % 3
+        if shape == 0:
+            defs = [(a, "", ("seq", [R(b), R(s1)])), (b, "", R(a)), (s1, "", L("s"))]
+        elif shape == 1:
+            defs = [(a, "", ("seq", [R(b), R(s1), R(s2)])), (b, "", ("alt", [R(a), L("x")])), (s1, "", L("s")), (s2, "", ("seq", [L("t"), R(s3)])), (s3, "", L("u"))]
+        else:
+            defs = [(a, "", ("seq", [L("x"), R(b)])), (b, "", ("seq", [R(s1), R(a)])), (s1, "", ("alt", [L("s"), R(s2)])), (s2, "", L("t"))]
+        rnd.shuffle(defs)
+        out.append(([("seq", [L("go"), R(a)])] if k % 2 else [L("plain")], defs))
+    return out
+
+
 def build_corpus(tier, seed):
     rnd = random.Random(seed)
     nbase = 60 if tier == "quick" else 700
     cases = []
+    for variants, defs in sink_cycles(rnd, 12 if tier == "quick" else 90):
+        sh = rnd.choice(gen.SHELLS)
+        c = gen.case(variants, defs, shell=sh)
+        corpus.finish(c, len(cases) + 1, origin="sink_cycle", planted="cycle", site={"shape": "sink_cycle"}, planted_for=sh, base=0,
+                      opt={"dest": "file", "destname": "_cmd" if sh == "zsh" else "out.script"})
+        cases.append(c)
     for variants, defs in tricky_clean() + dag_grammars(rnd, 15 if tier == "quick" else 200):
         for sh in gen.SHELLS:
             c = gen.case(variants, defs, shell=sh)
